@@ -131,6 +131,16 @@ Example C19_ex_unrepaired_faults :
   mrun (mthreads false [OpPeerAppeared 1; OpAge 1]) [0; 0; 0; 0; 0; 0; 1; 1; 1]%nat = true.
 Proof. vm_compute. reflexivity. Qed.
 
+(* a look-up in peerPredictabilities placed before the Lock of the metadata path (what a "do not log
+   under the lock" refactoring of NotifyNewBundle produces) faults against another goroutine's
+   import: thread 0 is inside its look-up when thread 1 stores its peer's vector *)
+Example C19_ex_unlocked_lookup_faults :
+  mrun [ {| mt_prog := [ABegin OPeers; AEnd OPeers; ALock; AWrite OPeers; AUnlock]; mt_held := HNone; mt_span := None |};
+         {| mt_prog := mop_prog true 1 (OpImport 1); mt_held := HNone; mt_span := None |} ]
+       [0; 1; 1; 1; 1]%nat = true
+  /\ mrun (mthreads true [OpImport 1; OpImport 1; OpSenderFor]) [0; 1; 2; 0; 2; 1; 0; 2; 0; 1; 0; 0; 2; 0; 1; 1; 1; 1; 1; 1; 1]%nat = false.
+Proof. vm_compute. split; reflexivity. Qed.
+
 (* the repaired code under the same schedule continued round-robin: no fault, and every
    operation runs to completion (the absence of faults is not an absence of progress) *)
 Example C19_ex_repaired_completes :
